@@ -6,6 +6,7 @@ contract use the callee contract only (modular).  Anything outside the
 supported subset raises Unsupported, which the driver reports as UNDECIDED."""
 from __future__ import annotations
 import ast
+import copy
 import z3
 from .values import (U, IntS, BoolS, MS, TRUTHY, NONE_U, V, VInt, VBool, VNone,
                      VU, VRef, VOpt, VTuple, VList, VDict, VIter, VFunc,
@@ -1261,11 +1262,17 @@ class Engine:
             k = self.coerce(st, idx, "U")
             if obj.val is None:
                 raise RaiseEx("KeyError", line)
-            self.require(st, obj.dom[k], "KeyError", line)
+            dl = getattr(obj, "default_list", False)
+            if not dl:
+                self.require(st, obj.dom[k], "KeyError", line)
             if obj.vshape.startswith("list:"):
                 es = obj.vshape[5:]
                 ms = None
-                lst = VList(obj.val[k], obj.vlen[k], es, ms,
+                # defaultdict(list): a missing key reads as the empty list
+                # (supported for the `d[k].append(x)` pattern, where the
+                # write-back inserts the key)
+                n_ = z3.If(obj.dom[k], obj.vlen[k], 0) if dl else obj.vlen[k]
+                lst = VList(obj.val[k], z3.simplify(n_), es, ms,
                             lid=("dictval", str(obj.lid), str(k)))
                 if sort_of_shape(es) == U:
                     lst.ms = st.fresh("dl_ms", MS)
@@ -1466,6 +1473,8 @@ class Engine:
                             z3.Store(cont.val, k, v.arr), cont.vshape,
                             lid=cont.lid)
                 new.vlen = z3.Store(cont.vlen, k, v.n)
+                if getattr(cont, "default_list", False):
+                    new.default_list = True
                 return new
             if cont.val is None:
                 vs = self.shape_of_value(v)
@@ -1882,6 +1891,9 @@ class Engine:
                                   f"shape via locals_")
             new = self.fresh_dict(st, v.vshape, name)
             new.lid = v.lid
+            for at in ("default_list", "is_set"):
+                if getattr(v, at, False):
+                    setattr(new, at, True)
             return new
         if isinstance(v, VOpt):
             return VOpt(st.fresh(name + "_isnone", BoolS),
@@ -1919,10 +1931,16 @@ class Engine:
         st.ghost["__loop_entry"] = entry_snap
         if post_havoc:
             post_havoc()
-        for cl in lc.inv:
-            st.assume(self.spec_bool(st, cl))
+        st.ghost["__axinst_off"] = True
+        try:
+            for cl in lc.inv:
+                st.assume(self.spec_bool(st, cl))
+        finally:
+            st.ghost["__axinst_off"] = False
         for lm in getattr(lc, "lemmas", ()):
             st.assume(self.spec_bool(st, lm))
+        st.ghost["__iter_start"] = None
+        st.ghost["__iter_start"] = st.snapshot()
         v0 = None
         if lc.variant:
             v0 = _as_int(self.spec_eval(st, lc.variant))
@@ -1942,9 +1960,22 @@ class Engine:
                     step()
             except BreakEx:
                 return  # leaves the loop, no else clause
+            for k, lm in enumerate(getattr(lc, "end_lemmas", ())):
+                cl_ = lm if isinstance(lm, Clause) else Clause(
+                    lm[1] if isinstance(lm, tuple) else lm)
+                t_ = self.spec_bool(st, cl_)
+                self.oblige(st, f"body-lemma(loop{ordinal})", line, t_, None,
+                            label=str(k),
+                            extra_hyps=self.reveal_hyps(st, cl_))
+                st.ghost["__axinst_off"] = True
+                try:
+                    st.assume(self.spec_bool(st, cl_))
+                finally:
+                    st.ghost["__axinst_off"] = False
             for k, cl in enumerate(lc.inv):
                 self.oblige(st, f"inv-preserved(loop{ordinal})", line,
-                            self.spec_bool(st, cl), cl.props, label=str(k))
+                            self.spec_bool(st, cl), cl.props, label=str(k),
+                            extra_hyps=self.reveal_hyps(st, cl))
             if v0 is not None:
                 v1 = _as_int(self.spec_eval(st, lc.variant))
                 self.oblige(st, f"variant(loop{ordinal})", line,
@@ -1991,6 +2022,9 @@ class Engine:
     # ======================================================================
     def verify(self, fc, max_paths=4000):
         node, h, path = S.get_function(self.repo, fc.module, fc.qualname)
+        node = copy.deepcopy(node)
+        S.desugar_effectful_dictcomps(
+            node, lambda nm: self.reg.find_function(nm) is not None)
         tree, _, _ = S.load_module(self.repo, fc.module)
         self.imports = S.module_imports(tree)
         self.cur = fc
